@@ -110,8 +110,10 @@ Proof. exact replay_lost_resync. Qed.
 Print Assumptions C06_lost_resync.
 
 (* ---- presentation options ---- *)
-(* leaf folding (default) vs --no-merge: same calls, same indentation, same durations *)
-Theorem C06_fold_is_presentation : forall forks sel tasks,
+(* leaf folding (default) vs --no-merge: same calls, same indentation, same durations (streams without
+   longjmp(): a pending longjmp correction could move the depth between the two halves of a folded leaf;
+   exec* and setjmp() are covered) *)
+Theorem C06_fold_is_presentation : forall forks sel tasks, no_longjmp_tasks tasks = true ->
   map core_of (events_of (fst (replay_raw (mkcfg true forks) sel tasks))) =
   map core_of (events_of (fst (replay_raw (mkcfg false forks) sel tasks))).
 Proof. exact fold_is_presentation. Qed.
